@@ -48,6 +48,18 @@ Lemma leaves_bindr {A B} (R : res B -> Prop) (m : prog (res A)) (f : A -> prog (
   (forall e, R (Err e)) -> (forall s, R (Panic s)) -> (forall a, leaves R (f a)) -> leaves R (bindr m f).
 Proof. intros He Hp Hf. unfold bindr. apply leaves_bind. intros [a|e|s]; simpl; auto. Qed.
 
+Lemma leaves_mono {A} (R R' : A -> Prop) (m : prog A) : (forall a, R a -> R' a) -> leaves R m -> leaves R' m.
+Proof. intros H. induction m as [a|e k IH]; simpl; [apply H|intros Hl x; apply IH; apply Hl]. Qed.
+(* the continuation may rely on what the first part returned *)
+Lemma leaves_bindr_R {A B} (R0 : A -> Prop) (R : res B -> Prop) (m : prog (res A)) (f : A -> prog (res B)) :
+  leaves (fun r => match r with Ok a => R0 a | Err e => R (Err e) | Panic s => R (Panic s) end) m ->
+  (forall a, R0 a -> leaves R (f a)) -> leaves R (bindr m f).
+Proof.
+  intros Hm Hf. unfold bindr. induction m as [r|e k IH]; simpl in *.
+  - destruct r as [a|e|s]; [apply Hf; exact Hm|exact Hm|exact Hm].
+  - intros x. apply IH. apply Hm.
+Qed.
+
 Lemma only_leaves_wp {A S} (Pe : ev -> bool) (R : A -> Prop) (step : S -> ev -> ans -> option S) (Inv : S -> Prop) (m : prog A) :
   (forall s e x, Inv s -> Pe e = true -> exists s', step s e x = Some s' /\ Inv s') ->
   only Pe m -> leaves R m -> forall s (Q : S -> A -> Prop), Inv s -> (forall s' a, Inv s' -> R a -> Q s' a) -> wp step m s Q.
